@@ -30,12 +30,23 @@ ASSUMPTIONS = ["cell sizes 2 and 5 as used by the code"]
 
 
 class StubAtom:
-    __slots__ = ("x", "y", "z", "cell", "id")
+    """the attributes of structures.Atom a cell list may touch (coordinates, cell, identification)"""
+
+    __slots__ = ("x", "y", "z", "cell", "id", "name", "res_name", "res_seq", "chain_id", "residue", "serial", "added", "element")
 
     def __init__(self, i):
         self.id = i
         self.x = self.y = self.z = 0.0
         self.cell = None
+        self.name = f"X{i}"
+        self.res_name, self.res_seq, self.chain_id, self.residue, self.serial, self.added, self.element = "STB", i, "A", None, i, 0, "X"
+
+    @property
+    def coords(self):
+        return [self.x, self.y, self.z]
+
+    def __str__(self):
+        return f"stub {self.id}"
 
 
 def gen_coord(rng, size):
@@ -151,7 +162,14 @@ def tie_histories(ctx: Ctx, n):
             ctx.sample({"size": size, "protocol": protocol, "ops": [list(o) for o in ops[:12]], "replies": real[:12]})
         if protocol:
             # oracle on the final state: every registered atom sees all atoms within `size`
-            reg = [a for a in atoms if a.cell is not None]
+            # (registered according to the operations issued, not according to what the cell list recorded)
+            regset = set()
+            for op in ops:
+                if op[0] == "a":
+                    regset.add(op[1])
+                elif op[0] == "r":
+                    regset.discard(op[1])
+            reg = [a for a in atoms if a.id in regset]
             for a in reg:
                 got = {b.id for b in cobj.get_near_cells(a) if math.dist((a.x, a.y, a.z), (b.x, b.y, b.z)) < size}
                 want = {b.id for b in reg if b is not a and math.dist((a.x, a.y, a.z), (b.x, b.y, b.z)) < size}
